@@ -82,9 +82,9 @@ Proof.
   rewrite <- (app_nil_r txt) at 1. rewrite (span_intro not_interesting txt [] Ht I). reflexivity.
 Qed.
 
-Definition raw_step (n : str) (a : list (str * option str)) (s : str) : Prop :=
+Definition raw_step (n : str) (a a' : list (str * option str)) (s : str) : Prop :=
   (* the start tag switches to cdata mode, the text is skipped as one piece, the end tag switches back *)
-  (forall endf rest, dispatch unesc endf None (w_start n a ++ rest) = ACont (length (w_start n a)) [TStart n a] (Some n)) /\
+  (forall endf rest, dispatch unesc endf None (w_start n a ++ rest) = ACont (length (w_start n a)) [TStart n a'] (Some n)) /\
   (forall rest, find_interesting (Some n) (s ++ w_end n ++ rest) = Some (s, w_end n ++ rest)) /\
   (forall endf rest, dispatch unesc endf (Some n) (w_end n ++ rest) = ACont (length (w_end n)) [TEnd n] None).
 Lemma w_start_interesting n a : starts_interesting (w_start n a).
@@ -108,13 +108,13 @@ Proof.
 Qed.
 
 (* a script / style element: two iterations *)
-Lemma go_raw f endf off p txt n a s rest its g :
-  forallb not_interesting txt = true -> raw_step n a s ->
+Lemma go_raw f endf off p txt n a a' s rest its g :
+  forallb not_interesting txt = true -> raw_step n a a' s ->
   go unesc f endf None (off + length txt + length (w_start n a) + length s + length (w_end n))%nat
      (updatepos (updatepos (updatepos (updatepos p txt) (w_start n a)) s) (w_end n)) rest = (its, g) ->
   go unesc (S (S f)) endf None off p (txt ++ (w_start n a ++ s ++ w_end n) ++ rest) =
     (item_of off p txt [TData txt] ++
-     item_of (off + length txt)%nat (updatepos p txt) (w_start n a) [TStart n a] ++
+     item_of (off + length txt)%nat (updatepos p txt) (w_start n a) [TStart n a'] ++
      item_of (off + length txt + length (w_start n a))%nat (updatepos (updatepos p txt) (w_start n a)) s [TData s] ++
      item_of (off + length txt + length (w_start n a) + length s)%nat
              (updatepos (updatepos (updatepos p txt) (w_start n a)) s) (w_end n) [TEnd n] ++ its, g).
@@ -122,7 +122,7 @@ Proof.
   intros Ht (D1 & FI & D2) G.
   replace (txt ++ (w_start n a ++ s ++ w_end n) ++ rest) with (txt ++ w_start n a ++ (s ++ w_end n ++ rest))
     by (rewrite <- !app_assoc; reflexivity).
-  rewrite (go_step_cd (S f) endf off p txt (w_start n a) [TStart n a] (Some n) (s ++ w_end n ++ rest)
+  rewrite (go_step_cd (S f) endf off p txt (w_start n a) [TStart n a'] (Some n) (s ++ w_end n ++ rest)
              (item_of (off + length txt + length (w_start n a))%nat (updatepos (updatepos p txt) (w_start n a)) s [TData s] ++
               item_of (off + length txt + length (w_start n a) + length s)%nat
                       (updatepos (updatepos (updatepos p txt) (w_start n a)) s) (w_end n) [TEnd n] ++ its) g
@@ -138,7 +138,7 @@ Definition tok_ok (t : wtok) : Prop :=
   | WCons sp evs =>
       starts_interesting sp /\
       forall endf rest, dispatch unesc endf None (sp ++ rest) = ACont (length sp) evs None
-  | WRaw n a s => raw_step n a s
+  | WRaw n a a' s => raw_step n a a' s
   end.
 Definition srcs (toks : list wtok) : str := concat (map tok_src toks).
 
@@ -152,9 +152,9 @@ Proof. reflexivity. Qed.
 
 Lemma raw_src_len n a s : (2 <= length (w_start n a ++ s ++ w_end n))%nat.
 Proof. unfold w_start, w_end. cbn [app length]. rewrite !app_length. cbn [length]. lia. Qed.
-Lemma raw_evs off p n a s o2 p2 o3 p3 :
-  flat_map it_evs (item_of off p (w_start n a) [TStart n a] ++ item_of o2 p2 s [TData s] ++ item_of o3 p3 (w_end n) [TEnd n]) =
-  tok_evs (WRaw n a s).
+Lemma raw_evs off p n a a' s o2 p2 o3 p3 :
+  flat_map it_evs (item_of off p (w_start n a) [TStart n a'] ++ item_of o2 p2 s [TData s] ++ item_of o3 p3 (w_end n) [TEnd n]) =
+  tok_evs (WRaw n a a' s).
 Proof.
   rewrite !flat_map_app. unfold w_start at 1, w_end at 1. cbn [item_of flat_map it_evs app tok_evs].
   destruct s; reflexivity.
@@ -170,14 +170,14 @@ Proof.
   - destruct toks; [|cbn in Hn; lia]. destruct fuel; eexists _, _; cbn; repeat split; reflexivity.
   - destruct toks as [|t toks]; [destruct fuel; eexists _, _; cbn; repeat split; reflexivity|].
     inversion Hok as [|? ? Ht Hok']; subst. destruct fuel as [|f]; [lia|].
-    destruct t as [s|sp evs|rn ra rs].
+    destruct t as [s|sp evs|rn ra ra' rs].
     + (* text first *)
       destruct Ht as [Hne Hs]. destruct toks as [|t2 toks2].
       * rewrite srcs_cons. cbn [tok_src]. change (srcs []) with (@nil N). rewrite app_nil_r.
         rewrite (go_text_end f endf off p s Hne Hs).
         eexists _, _. split; [reflexivity|]. cbn [gs_status gs_rest gs_cd].
         rewrite (item_evs_of _ _ _ _ Hne). cbn. repeat split; reflexivity.
-      * destruct t2 as [s2|sp evs|rn ra rs]; [cbn in Hadj; discriminate| |].
+      * destruct t2 as [s2|sp evs|rn ra ra' rs]; [cbn in Hadj; discriminate| |].
         -- inversion Hok' as [|? ? Ht2 Hok'']; subst. destruct Ht2 as [Hsi Hd].
            rewrite !srcs_cons in *. cbn [tok_src] in *.
            cbn [no_adj_text] in Hadj. rewrite !app_length in Hf. cbn [length] in Hn.
@@ -199,7 +199,7 @@ Proof.
                         (updatepos (updatepos (updatepos (updatepos p s) (w_start rn ra)) rs) (w_end rn))
                         ltac:(rewrite !app_length in L2, Hf; lia))
              as (its & g & G & E & S1 & S2 & S3).
-           rewrite (go_raw f' endf off p s rn ra rs (srcs toks2) its g Hs Ht2 G).
+           rewrite (go_raw f' endf off p s rn ra ra' rs (srcs toks2) its g Hs Ht2 G).
            eexists _, _. split; [reflexivity|]. repeat split; auto.
            rewrite flat_map_app, (item_evs_of _ _ _ _ Hne). cbn [flat_map app]. rewrite !app_assoc.
            rewrite flat_map_app, E. rewrite <- !app_assoc. rewrite raw_evs. reflexivity.
@@ -224,7 +224,7 @@ Proof.
                    (updatepos (updatepos (updatepos (updatepos p []) (w_start rn ra)) rs) (w_end rn))
                    ltac:(rewrite !app_length in L2, Hf; lia))
         as (its & g & G & E & S1 & S2 & S3).
-      pose proof (go_raw f' endf off p [] rn ra rs (srcs toks) its g eq_refl Ht G) as ST.
+      pose proof (go_raw f' endf off p [] rn ra ra' rs (srcs toks) its g eq_refl Ht G) as ST.
       cbn [app] in ST. rewrite ST. eexists _, _. split; [reflexivity|]. repeat split; auto.
       cbn [item_of app]. rewrite !app_assoc. rewrite flat_map_app, E. rewrite <- !app_assoc. rewrite raw_evs. reflexivity.
 Qed.
@@ -257,10 +257,12 @@ Proof.
   unfold is_alpha, is_upper, is_lower. intros H. apply orb_prop in H as [H|H]; apply andb_prop in H as [H1 H2];
     apply N.leb_le in H1; apply N.leb_le in H2; lia.
 Qed.
-Lemma lower_or_digit_range c : lower_or_digit c = true -> 48 <= c /\ c <= 122 /\ (c <= 57 \/ 97 <= c).
+Lemma lower_or_digit_range c : lower_or_digit c = true -> (45 <= c /\ c <= 46) \/ (48 <= c /\ c <= 58) \/ (95 <= c /\ c <= 122).
 Proof.
-  unfold lower_or_digit, is_lower, is_digit. intros H. apply orb_prop in H as [H|H]; apply andb_prop in H as [H1 H2];
-    apply N.leb_le in H1; apply N.leb_le in H2; lia.
+  unfold lower_or_digit, is_lower, is_digit, memN. cbn [existsb]. intros H.
+  apply orb_prop in H as [H|H]; [apply orb_prop in H as [H|H]; apply andb_prop in H as [H1 H2];
+                                 apply N.leb_le in H1; apply N.leb_le in H2; lia|].
+  repeat (apply orb_prop in H as [H|H]; [apply N.eqb_eq in H; lia|]). discriminate.
 Qed.
 Lemma eqb_false_range c k : c <> k -> (c =? k) = false.
 Proof. apply N.eqb_neq. Qed.
@@ -338,20 +340,39 @@ Proof.
   apply negb_true_iff in H. now apply N.eqb_neq in H.
 Qed.
 
-Lemma tok_ok_comment s : no_char 45 s = true ->
+Lemma cc_none_ne c r : c <> 45 -> commentclose_at (c :: r) = None.
+Proof.
+  intros Nc. unfold commentclose_at. destruct c as [|pc]; [reflexivity|].
+  repeat (destruct pc as [pc|pc|]; try reflexivity). congruence.
+Qed.
+Lemma cc_none_2 d r : d <> 45 -> commentclose_at (45 :: d :: r) = None.
+Proof.
+  intros Nd. unfold commentclose_at. destruct d as [|pd]; [reflexivity|].
+  repeat (destruct pd as [pd|pd|]; try reflexivity). congruence.
+Qed.
+Lemma search_comment s rest : no_dd s = true ->
+  search commentclose_at (s ++ 45 :: 45 :: 62 :: rest) = Some (length s, (length s + 3)%nat).
+Proof.
+  induction s as [|c s' IH]; intros H.
+  - cbn [app length search commentclose_at span]. change (is_space 62) with false. cbv iota. change (62 =? 62) with true.
+    reflexivity.
+  - cbn [no_dd] in H. apply andb_prop in H as [H1 H2]. apply negb_true_iff in H1.
+    assert (commentclose_at (c :: s' ++ 45 :: 45 :: 62 :: rest) = None) as CN.
+    { destruct (N.eq_dec c 45) as [->|Nc]; [|now apply cc_none_ne].
+      change (45 =? 45) with true in H1. cbn [andb] in H1. destruct s' as [|d s''].
+      - reflexivity.
+      - cbn [app]. apply cc_none_2. intros ->. discriminate H1. }
+    cbn [app length search]. rewrite CN. rewrite (IH H2). reflexivity.
+Qed.
+Lemma tok_ok_comment s : no_dd s = true ->
   tok_ok (WCons (60 :: 33 :: 45 :: 45 :: s ++ [45; 45; 62]) [TComment s]).
 Proof.
   intros Hs. split; [exists 60, (33 :: 45 :: 45 :: s ++ [45; 45; 62]); split; reflexivity|]. intros endf rest.
   cbn [app]. rewrite <- app_assoc. cbn [app]. unfold dispatch.
   change (60 =? 60) with true. cbv iota. change (is_alpha 33) with false. change (33 =? 47) with false. cbv iota.
   change (has_prefix s_comment_open (60 :: 33 :: 45 :: 45 :: s ++ 45 :: 45 :: 62 :: rest)) with true. cbv iota.
-  unfold parse_comment. cbn [skipn].
-  rewrite (search_skip commentclose_at s (45 :: 45 :: 62 :: rest)).
-  - cbn [search commentclose_at span]. change (is_space 62) with false. cbv iota. change (62 =? 62) with true.
-    cbv iota. unfold of_pres. replace (length s + 0)%nat with (length s) by lia. rewrite firstn_pre.
-    cbn [length]. rewrite app_length. cbn [length]. f_equal; lia.
-  - intros c r Hc. pose proof (no_char_in 45 s c Hs Hc) as Nc. unfold commentclose_at.
-    destruct c as [|pc]; [reflexivity|]. repeat (destruct pc as [pc|pc|]; try reflexivity). congruence.
+  unfold parse_comment. cbn [skipn]. rewrite (search_comment s rest Hs).
+  unfold of_pres. rewrite firstn_pre. cbn [length]. rewrite app_length. cbn [length]. f_equal; lia.
 Qed.
 
 (* ------------------------------------------------------------------ tags without attributes *)
@@ -360,25 +381,27 @@ Proof. intros H. induction l as [|x l IH]; cbn; [auto|]. intros E. apply andb_pr
 
 Lemma lod_name_char x : lower_or_digit x = true -> name_char x = true.
 Proof.
-  intros H. apply lower_or_digit_range in H as (H1 & H2 & [H3|H3]); unfold name_char; apply negb_true_iff.
-  - apply (memN_outside x _ 48 57); [lia|lia|vm_compute; reflexivity].
-  - apply (memN_outside x _ 97 122); [lia|lia|vm_compute; reflexivity].
+  intros H. apply lower_or_digit_range in H as [[H1 H2]|[[H1 H2]|[H1 H2]]]; unfold name_char; apply negb_true_iff.
+  - apply (memN_outside x _ 45 46); [lia|lia|vm_compute; reflexivity].
+  - apply (memN_outside x _ 48 58); [lia|lia|vm_compute; reflexivity].
+  - apply (memN_outside x _ 95 122); [lia|lia|vm_compute; reflexivity].
 Qed.
 Lemma lod_not_space x : lower_or_digit x = true -> is_space x = false.
-Proof. intros H. apply lower_or_digit_range in H as (H1 & H2 & _). apply not_space_mid; lia. Qed.
+Proof. intros H. apply lower_or_digit_range in H. apply not_space_mid; lia. Qed.
 Lemma lod_etag x : lower_or_digit x = true -> etag_char x = true.
 Proof.
-  unfold lower_or_digit, etag_char, is_alnum, is_alpha. intros H. apply orb_prop in H as [H|H]; rewrite H; cbn;
-    rewrite ?orb_true_r; reflexivity.
+  unfold lower_or_digit, etag_char, is_alnum, is_alpha. intros H.
+  apply orb_prop in H as [H|H]; [apply orb_prop in H as [H|H]; rewrite H; cbn; rewrite ?orb_true_r; reflexivity|].
+  rewrite H. apply orb_true_r.
 Qed.
 Lemma lod_lower1 x : lower_or_digit x = true -> lower1 x = x.
 Proof.
-  intros H. apply lower_or_digit_range in H as (H1 & H2 & H3). unfold lower1, is_upper.
+  intros H. apply lower_or_digit_range in H. unfold lower1, is_upper.
   destruct (65 <=? x) eqn:A; destruct (x <=? 90) eqn:B; cbn; try reflexivity.
   apply N.leb_le in A. apply N.leb_le in B. lia.
 Qed.
 Lemma lod_not_gt x : lower_or_digit x = true -> negb (x =? 62) = true.
-Proof. intros H. apply lower_or_digit_range in H as (H1 & H2 & H3). apply negb_true_iff, N.eqb_neq. lia. Qed.
+Proof. intros H. apply lower_or_digit_range in H. apply negb_true_iff, N.eqb_neq. lia. Qed.
 Lemma lower_lod c : is_lower c = true -> lower_or_digit c = true.
 Proof. unfold lower_or_digit. now intros ->. Qed.
 Lemma lower_alpha c : is_lower c = true -> is_alpha c = true.
@@ -582,41 +605,74 @@ Qed.
 
 (* ------------------------------------------------------------------ tags with attributes *)
 Definition stops_here (R : str) : Prop :=
-  exists c R', R = c :: R' /\ (is_lower c = true \/ c = 62 \/ (c = 47 /\ exists R'', R' = 62 :: R'')).
+  exists c R', R = c :: R' /\ (attr_start c = true \/ c = 62 \/ (c = 47 /\ exists R'', R' = 62 :: R'')).
 Definition tail_ok (tail : str) : Prop := (exists r, tail = 62 :: r) \/ (exists r, tail = 47 :: 62 :: r).
 
 Lemma lower_range c : is_lower c = true -> 97 <= c /\ c <= 122.
 Proof. unfold is_lower. intros H. apply andb_prop in H as [H1 H2]. apply N.leb_le in H1. apply N.leb_le in H2. lia. Qed.
+Lemma astart_range c : attr_start c = true -> (97 <= c /\ c <= 122) \/ c = 95 \/ c = 58.
+Proof.
+  unfold attr_start. intros H. apply orb_prop in H as [H|H]; [apply orb_prop in H as [H|H]|].
+  - left. now apply lower_range.
+  - apply N.eqb_eq in H. auto.
+  - apply N.eqb_eq in H. auto.
+Qed.
+Lemma astart_lod c : attr_start c = true -> lower_or_digit c = true.
+Proof.
+  unfold attr_start, lower_or_digit. intros H. apply orb_prop in H as [H|H]; [apply orb_prop in H as [H|H]|].
+  - now rewrite H.
+  - apply N.eqb_eq in H. subst. reflexivity.
+  - apply N.eqb_eq in H. subst. reflexivity.
+Qed.
 Lemma stops_skip R : stops_here R -> skip_ws_slash R = ([], R).
 Proof.
   intros (c & R' & -> & [H|[->|[-> (R'' & ->)]]]); [|reflexivity|reflexivity].
-  cbn [skip_ws_slash]. rewrite (lod_not_space _ (lower_lod _ H)).
-  apply lower_range in H. replace (c =? 47) with false by (symmetry; apply N.eqb_neq; lia). reflexivity.
+  cbn [skip_ws_slash]. rewrite (lod_not_space _ (astart_lod _ H)).
+  apply astart_range in H. replace (c =? 47) with false by (symmetry; apply N.eqb_neq; lia). reflexivity.
 Qed.
 Lemma stops_not_space R : stops_here R -> span is_space R = ([], R).
 Proof.
   intros (c & R' & -> & [H|[->|[-> _]]]); [|reflexivity|reflexivity].
-  apply span_head_false. exact (lod_not_space _ (lower_lod _ H)).
+  apply span_head_false. exact (lod_not_space _ (astart_lod _ H)).
 Qed.
 Lemma stops_not_eq R : stops_here R -> span (N.eqb 61) R = ([], R).
 Proof.
   intros (c & R' & -> & [H|[->|[-> _]]]); [|reflexivity|reflexivity].
-  apply span_head_false. apply lower_range in H. apply N.eqb_neq. lia.
+  apply span_head_false. apply astart_range in H. apply N.eqb_neq. lia.
 Qed.
 Lemma tail_stops tail : tail_ok tail -> stops_here tail.
 Proof. intros [[r ->]|[r ->]]; [exists 62, r|exists 47, (62 :: r)]; split; eauto 6. Qed.
 Lemma tail_no_attr prev tail : tail_ok tail -> scan_attr prev tail = None.
 Proof. intros [[r ->]|[r ->]]; [apply scan_attr_gt|apply scan_attr_slash]. Qed.
 
-Lemma scan_value_quoted x T : no_char 34 x = true -> scan_value (61 :: 34 :: x ++ 34 :: T) = Some (x, T).
+Lemma scan_value_quoted_q q x T : q = 34 \/ q = 39 -> no_char q x = true -> scan_value (61 :: q :: x ++ q :: T) = Some (x, T).
 Proof.
-  intros Hx. unfold scan_value.
+  intros Hq Hx. unfold scan_value.
   rewrite (span_head_false is_space 61 _ eq_refl).
-  replace (span (N.eqb 61) (61 :: 34 :: x ++ 34 :: T)) with ([61], 34 :: x ++ 34 :: T) by reflexivity.
-  rewrite (span_head_false is_space 34 _ eq_refl).
-  change ((34 =? 39) || (34 =? 34)) with true. cbv iota.
-  rewrite (span_app_stop (fun c => negb (c =? 34)) x 34 T Hx eq_refl). reflexivity.
+  assert (span (N.eqb 61) (61 :: q :: x ++ q :: T) = ([61], q :: x ++ q :: T)) as E1
+    by (destruct Hq as [-> | ->]; reflexivity).
+  rewrite E1.
+  assert (span is_space (q :: x ++ q :: T) = ([], q :: x ++ q :: T)) as E2
+    by (destruct Hq as [-> | ->]; reflexivity).
+  rewrite E2.
+  assert ((q =? 39) || (q =? 34) = true) as E3 by (destruct Hq as [-> | ->]; reflexivity).
+  rewrite E3.
+  rewrite (span_app_stop (fun c => negb (c =? q)) x q T Hx) by (now rewrite N.eqb_refl). reflexivity.
 Qed.
+Lemma memN_no_char c s : memN c s = false -> no_char c s = true.
+Proof.
+  unfold no_char, memN. induction s as [|x s IH]; cbn; [reflexivity|]. intros H. apply orb_false_iff in H as [H1 H2].
+  rewrite N.eqb_sym, H1. cbn. now apply IH.
+Qed.
+Lemma quote_ok x : negb (memN 34 x && memN 39 x) = true -> (quote_of x = 34 \/ quote_of x = 39) /\ no_char (quote_of x) x = true.
+Proof.
+  unfold quote_of. destruct (memN 34 x) eqn:D; cbn [andb negb]; intros H.
+  - split; [auto|]. apply memN_no_char. now apply negb_true_iff in H.
+  - split; [auto|]. now apply memN_no_char.
+Qed.
+Lemma scan_value_quoted x T : negb (memN 34 x && memN 39 x) = true ->
+  scan_value (61 :: quote_of x :: x ++ quote_of x :: T) = Some (x, T).
+Proof. intros H. destruct (quote_ok x H) as [Q N]. now apply scan_value_quoted_q. Qed.
 Lemma scan_value_none R : stops_here R -> scan_value (32 :: R) = None.
 Proof.
   intros H. unfold scan_value. cbn [span]. change (is_space 32) with true. cbv iota.
@@ -625,14 +681,14 @@ Qed.
 
 Lemma lod_attr_rest x : lower_or_digit x = true -> attr_rest x = true.
 Proof.
-  intros H. unfold attr_rest. rewrite (lod_not_space _ H). apply lower_or_digit_range in H as (H1 & H2 & H3).
+  intros H. unfold attr_rest. rewrite (lod_not_space _ H). apply lower_or_digit_range in H.
   replace (x =? 47) with false by (symmetry; apply N.eqb_neq; lia).
   replace (x =? 61) with false by (symmetry; apply N.eqb_neq; lia).
   replace (x =? 62) with false by (symmetry; apply N.eqb_neq; lia). reflexivity.
 Qed.
-Lemma lower_attr_first c : is_lower c = true -> attr_first c = true.
+Lemma lower_attr_first c : attr_start c = true -> attr_first c = true.
 Proof.
-  intros H. unfold attr_first. rewrite (lod_not_space _ (lower_lod _ H)). apply lower_range in H.
+  intros H. unfold attr_first. rewrite (lod_not_space _ (astart_lod _ H)). apply astart_range in H.
   replace (c =? 47) with false by (symmetry; apply N.eqb_neq; lia).
   replace (c =? 62) with false by (symmetry; apply N.eqb_neq; lia). reflexivity.
 Qed.
@@ -646,7 +702,7 @@ Proof.
   unfold scan_attr. cbn [app]. change (lookbehind_ok 32) with true. rewrite (lower_attr_first _ Hc). cbv iota. cbn [andb].
   destruct v as [x|].
   - pose proof Hv as Hq. unfold val_src.
-    replace ((kr ++ (61 :: 34 :: x ++ [34]) ++ [32]) ++ R) with (kr ++ 61 :: 34 :: x ++ 34 :: 32 :: R)
+    replace ((kr ++ (61 :: quote_of x :: x ++ [quote_of x]) ++ [32]) ++ R) with (kr ++ 61 :: quote_of x :: x ++ quote_of x :: 32 :: R)
       by (cbn [app]; rewrite <- !app_assoc; cbn [app]; rewrite <- !app_assoc; reflexivity).
     rewrite (span_app_stop attr_rest kr 61 _ Hrest eq_refl).
     rewrite (scan_value_quoted x (32 :: R) Hq).
@@ -667,7 +723,7 @@ Proof.
   induction a as [|[k v] a IH]; [cbn; lia|]. rewrite osrc_cons, app_length. unfold attr_src. cbn [fst snd].
   rewrite !app_length. cbn [length]. lia.
 Qed.
-Lemma attr_head_lower k v R : quoted_attr (k, v) = true -> exists c R', (k ++ val_src v) ++ R = c :: R' /\ is_lower c = true.
+Lemma attr_head_lower k v R : quoted_attr (k, v) = true -> exists c R', (k ++ val_src v) ++ R = c :: R' /\ attr_start c = true.
 Proof.
   unfold quoted_attr, simple_attr_name. cbn [fst snd]. intros H. apply andb_prop in H as [Hk _].
   destruct k as [|c kr]; [discriminate|]. apply andb_prop in Hk as [Hc _]. cbn [app]. eauto.
@@ -702,7 +758,7 @@ Proof.
   unfold scan_attr. cbn [app]. change (lookbehind_ok 32) with true. rewrite (lower_attr_first _ Hc). cbv iota. cbn [andb].
   destruct v as [x|].
   - unfold val_src.
-    replace ((kr ++ 61 :: 34 :: x ++ [34]) ++ tail) with (kr ++ 61 :: 34 :: x ++ 34 :: tail)
+    replace ((kr ++ 61 :: quote_of x :: x ++ [quote_of x]) ++ tail) with (kr ++ 61 :: quote_of x :: x ++ quote_of x :: tail)
       by (rewrite <- !app_assoc; cbn [app]; rewrite <- !app_assoc; reflexivity).
     rewrite (span_app_stop attr_rest kr 61 _ Hrest eq_refl).
     rewrite (scan_value_quoted x tail Hv). rewrite (stops_skip tail HR). reflexivity.
@@ -750,7 +806,7 @@ Lemma quoted_name_lower k v : quoted_attr (k, v) = true -> ascii_lower k = k.
 Proof.
   unfold quoted_attr, simple_attr_name. cbn [fst snd]. intros H. apply andb_prop in H as [Hk _].
   destruct k as [|c kr]; [discriminate|]. apply andb_prop in Hk as [Hc Hkr].
-  apply ascii_lower_id. cbn [forallb]. now rewrite (lower_lod _ Hc), Hkr.
+  apply ascii_lower_id. cbn [forallb]. now rewrite (astart_lod _ Hc), Hkr.
 Qed.
 
 (* the while k < endpos loop of parse_starttag over the same *)
@@ -885,7 +941,7 @@ Proof.
   unfold unesc_attrs. rewrite map_app. cbn [map fst snd]. f_equal. rewrite <- Lq, !app_length. lia.
 Qed.
 
-Lemma asrc_head a tail : a <> [] -> quoted_attrs a = true -> exists c1 A', asrc a ++ tail = c1 :: A' /\ is_lower c1 = true.
+Lemma asrc_head a tail : a <> [] -> quoted_attrs a = true -> exists c1 A', asrc a ++ tail = c1 :: A' /\ attr_start c1 = true.
 Proof.
   intros Hne Ha. destruct a as [|[k v] a']; [congruence|].
   cbn [quoted_attrs forallb] in Ha. apply andb_prop in Ha as [H1 _].
@@ -924,7 +980,7 @@ Proof.
     assert (span ws_or_slash (32 :: asrc a ++ tail) = ([32], asrc a ++ tail)) as SW.
     { cbn [span]. change (ws_or_slash 32) with true. cbv iota. rewrite EA.
       rewrite (span_head_false ws_or_slash c1). reflexivity.
-      unfold ws_or_slash. rewrite (lod_not_space _ (lower_lod _ Hc1)). apply lower_range in Hc1.
+      unfold ws_or_slash. rewrite (lod_not_space _ (astart_lod _ Hc1)). apply astart_range in Hc1.
       apply N.eqb_neq. lia. }
     rewrite SW. cbn [length]. replace (1 + length n + 1)%nat with (S (length (60 :: n))) by (cbn [length]; lia).
     rewrite ES at 1 2.
@@ -1038,8 +1094,18 @@ Qed.
 Lemma lname_cdv n : lname n -> memS n cdata_content_elements = true -> cdv n = Some n.
 Proof. intros _ H. unfold cdv. now rewrite H. Qed.
 
+Lemma raw_step_ok_gen n a s : lname n -> memS n cdata_content_elements = true -> quoted_attrs a = true ->
+  no_char 60 s = true -> raw_step n a (unesc_attrs a) s.
+Proof.
+  intros Hn Hcd Q Hs. split; [|split].
+  - intros endf rest. rewrite (dispatch_start_gen endf n a rest Hn Q), (lname_cdv n Hn Hcd). reflexivity.
+  - intros rest. cbn [find_interesting]. apply find_cdata_close_skip; [exact Hs|now apply cdata_close_at_end].
+  - intros endf rest. unfold w_end. cbn [app]. rewrite <- app_assoc. cbn [app].
+    rewrite (dispatch_endtag endf (Some n) n rest Hn (or_intror eq_refl)).
+    cbn [length]. rewrite app_length. cbn [length]. f_equal; lia.
+Qed.
 Lemma raw_step_ok n a s : lname n -> memS n cdata_content_elements = true -> simple_attrs a = true ->
-  no_char 60 s = true -> raw_step n a s.
+  no_char 60 s = true -> raw_step n a a s.
 Proof.
   intros Hn Hcd Ha Hs. destruct (simple_attrs_quoted a Ha) as [Q U]. split; [|split].
   - intros endf rest. rewrite (dispatch_start_gen endf n a rest Hn Q), U, (lname_cdv n Hn Hcd). reflexivity.
